@@ -201,7 +201,8 @@ theorem safe_dfrArgs {calls : HelperCalls} {t : List FieldWrite} (h : FieldWrite
 The fields of every value struct are unexported: package `serialization` can change a value only through a method it
 calls on it, or by writing through storage an accessor handed out.  `SerFactsSafe`: every method the serializer invokes is
 a reviewed one — read-only methods of values and types, the emitting methods of the consumer (its OUTPUT), the serializer's
-own — and every assignment goes to the serializer's own state (`sc.values[value] = pos`: the memo table keyed by identity;
+own (the functions the file declares itself are not listed: their bodies are scanned, so extracting a helper adds no
+name) — and every assignment goes to the serializer's own state (`sc.values[value] = pos`: the memo table keyed by identity;
 `sc.refIndex`, `sc.path`), to a plain local, or into storage the function created itself. -/
 
 def reviewedSerCalls : List String := [
@@ -217,8 +218,7 @@ def reviewedSerCalls : List String := [
   "addArray", "addData", "addHash", "isKnownType", "nonStringKeyedHashToData", "pathToString", "pcoreTypeToData", "process",
   "toData", "toKeyExtendedHash", "unknownToStringWithWarning", "valueToDataHash", "withPath"]
 
-def reviewedSerTargets : List String :=
-  ["local", "fresh-through", "recv.values", "recv.refIndex", "recv.path"]
+def reviewedSerTargets : List String := ["local", "fresh-through", "recv"]
 
 def serFactsSafeB (calls : List String) (writes : List (String × String)) : Bool :=
   calls.all (fun c => reviewedSerCalls.contains c) && writes.all (fun w => reviewedSerTargets.contains w.2)
@@ -232,25 +232,20 @@ instance (calls : List String) (writes : List (String × String)) : Decidable (S
 
 Outside package `types` a value can be changed only by calling an exported method that assigns its fields.
 `Generated.mutatorNames` are those names (computed from family fieldwrites, closed under receiver calls), `mutatorCalls` every
-call of a method of such a name in any other package.  `MutatorCallsSafe`: every call is a reviewed one. -/
+call of a method of such a name in any other package, per FILE (extracting or renaming a function inside a file adds no
+row).  `MutatorCallsSafe`: every (file, method) is a reviewed one. -/
 
-def reviewedMutatorCalls : List (String × String × String) := [
+def reviewedMutatorCalls : List (String × String) := [
   -- hash.StringHash (a string-keyed ordered map of the Go API, not a px.Value): its own Put / PutAll
-  ("hash", "stringHash.Merge", "PutAll"),
-  ("hash", "stringHash.PutAll", "Put"),
+  ("hash/stringhash.go", "Put"), ("hash/stringhash.go", "PutAll"),
   -- the context completing parsed types / type sets / registered resolvables before anybody holds them
-  ("internal", "pxContext.ParseType", "Resolve"),
-  ("internal", "resolveResolvables", "Resolve"),
-  ("internal", "resolveTypeSet", "Constructor"),
-  ("internal", "resolveTypes", "Constructor"),
-  ("internal", "resolveTypes", "Resolve"),
+  ("internal/context.go", "Constructor"), ("internal/context.go", "Resolve"),
   -- a read (InitType.EachSignature completes its constructor list on first use)
-  ("internal", "describeInitType", "EachSignature"),
+  ("internal/typemismatchdescriber.go", "EachSignature"),
   -- the file loader resolving what it has just parsed
-  ("loader", "fileBasedLoader.find", "Resolve"),
+  ("loader/filebased.go", "Resolve"),
   -- the DEserializer building a new type / object (allocate, then InitFromHash / Resolve)
-  ("serialization", "dsContext.convert", "Resolve"),
-  ("serialization", "dsContext.pcoreTypeHashToValue", "InitFromHash")]
+  ("serialization/deserializer.go", "InitFromHash"), ("serialization/deserializer.go", "Resolve")]
 
 /-- exported accessors that hand out a slice / map of the receiver AS IT IS (`return dt.params`): a caller that writes into
     the result changes the value.  Reviewed: none belongs to Array / Hash / HashEntry (their accessors copy: `AppendTo`,
@@ -267,14 +262,14 @@ def AliasAccessorsReviewed (accs : List (String × String)) : Prop :=
 instance (accs : List (String × String)) : Decidable (AliasAccessorsReviewed accs) := by
   unfold AliasAccessorsReviewed; infer_instance
 
-def mutatorCallsSafeB (names : List String) (calls : List (String × String × String)) : Bool :=
+def mutatorCallsSafeB (names : List String) (calls : List (String × String)) : Bool :=
   -- the two mutators of a DATA value are known by name, so that the list cannot silently lose them
   names.contains "Put" && names.contains "PutAll" && calls.all fun c => reviewedMutatorCalls.contains c
 
-def MutatorCallsSafe (names : List String) (calls : List (String × String × String)) : Prop :=
+def MutatorCallsSafe (names : List String) (calls : List (String × String)) : Prop :=
   mutatorCallsSafeB names calls = true
 
-instance (names : List String) (calls : List (String × String × String)) : Decidable (MutatorCallsSafe names calls) := by
+instance (names : List String) (calls : List (String × String)) : Decidable (MutatorCallsSafe names calls) := by
   unfold MutatorCallsSafe; infer_instance
 
 end Pcore.Immut
